@@ -44,6 +44,7 @@ type Node struct {
 	Disk   *simfs.Disk
 	FS     *simfs.FS
 	Up     bool
+	Hung   bool
 	Skew   time.Duration
 	Keys   []*Validator // validators this node generates for
 	Log    *ringLogger
@@ -60,6 +61,8 @@ type Node struct {
 	events                                       chan interface{}
 	cancel                                       context.CancelFunc
 	Transport                                    p2p.VerifTransport
+	// OnEventSync is called synchronously with the executer (which is blocked meanwhile) for every event it publishes.
+	OnEventSync func(n *Node, msg interface{})
 }
 
 var dbDirs = []string{"/data/blockchain.db", "/data/generator.db", "/data/state.db", "/data/module.db"}
@@ -141,6 +144,20 @@ func (n *Node) Start() (err error) {
 	// subscriptions in the real engine); drained by the simulator after every call into the node
 	n.events = make(chan interface{}, 8192)
 	for _, topic := range []string{consensus.EventBlockNew, consensus.EventBlockDelete, consensus.EventBlockFinalize, consensus.EventValidatorsChange, consensus.EventNetworkBlockNew, consensus.EventChainFork} {
+		// a synchronous observer first: Publish sends to the subscribers one after the other, so while the observer
+		// goroutine works on a message (between taking it from a and taking the copy from b) the executer is blocked
+		// in Publish and the node's state is exactly the state right after the operation that caused the event
+		a, b := make(chan interface{}), make(chan interface{})
+		n.Exec.VerifEvents().On(topic, a)
+		n.Exec.VerifEvents().On(topic, b)
+		go func() {
+			for m := range a {
+				if n.OnEventSync != nil {
+					n.OnEventSync(n, m)
+				}
+				<-b
+			}
+		}()
 		n.Exec.VerifEvents().On(topic, n.events)
 	}
 	last := n.Chain.LastBlock()
